@@ -19,10 +19,14 @@ class ModuleInfo:
         self.binders = {}      # name -> top level statement that binds it (last one wins)
         self.done = set()      # ids of executed top-level statements
         self.env = None        # set by the interpreter
+        self.stars = []        # top-level `from X import *` statements, in source order
         self._scan(self.tree.body)
 
     def _scan(self, body):
         for st in body:
+            if isinstance(st, ast.ImportFrom) and any(a.name == '*' for a in st.names):
+                self.stars.append(st)
+                continue
             for n in bound_names(st):
                 self.binders[n] = st
 
